@@ -465,3 +465,50 @@ pub fn exec_sweep(run: u64, prog: &Value, out: &mut Out) {
         }
     }
 }
+
+/// {"fam":"pb","ops":[{"op":"add","tree":..}|{"op":"push","d":[..],"via":"byte|word|dword|qword|vec"}]}:
+/// the PackageBuilder state machine, serialised after every operation.
+pub fn exec_pb(run: u64, prog: &Value, out: &mut Out) {
+    let mut pb = aml::PackageBuilder::new();
+    let ser = |pb: &aml::PackageBuilder| {
+        guarded(|| {
+            let mut v = Vec::new();
+            pb.to_aml_bytes(&mut v);
+            v
+        })
+    };
+    let b0 = ser(&pb);
+    out.emit(json!({"ev":"pb_new","run":run,"bytes":jbytes(&b0.clone().unwrap_or_default()),"panic":b0.is_err()}));
+    for op in list(prog, "ops") {
+        match str_of(get(op, "op")) {
+            "add" => {
+                let tree = get(op, "tree");
+                let elem = encode(tree).unwrap_or_default(); // the element serialised on its own (vector sink)
+                let r = guarded(|| pb.add_element(&Node(tree.clone())));
+                let b = ser(&pb);
+                let panicked = r.is_err() || b.is_err();
+                out.emit(json!({"ev":"pb_add","run":run,"tree":tree,"elem":jbytes(&elem),"bytes":jbytes(&b.unwrap_or_default()),"panic":panicked}));
+                if panicked {
+                    return;
+                }
+            }
+            "push" => {
+                let d = bytes_of(get(op, "d"));
+                let r = guarded(|| match str_of(get(op, "via")) {
+                    "byte" => d.iter().for_each(|x| AmlSink::byte(&mut pb, *x)),
+                    "word" => AmlSink::word(&mut pb, u16::from_le_bytes([d[0], d[1]])),
+                    "dword" => AmlSink::dword(&mut pb, u32::from_le_bytes([d[0], d[1], d[2], d[3]])),
+                    "qword" => AmlSink::qword(&mut pb, u64::from_le_bytes(d.clone().try_into().unwrap())),
+                    _ => AmlSink::vec(&mut pb, &d),
+                });
+                let b = ser(&pb);
+                let panicked = r.is_err() || b.is_err();
+                out.emit(json!({"ev":"pb_push","run":run,"d":jbytes(&d),"bytes":jbytes(&b.unwrap_or_default()),"panic":panicked}));
+                if panicked {
+                    return;
+                }
+            }
+            o => panic!("pb op {o}"),
+        }
+    }
+}
